@@ -101,7 +101,10 @@ class C19(object):
             a = rng.randint(0, len(lines) - 1)
             b = rng.randint(a + 1, len(lines))
             cuts.append({"a": a, "b": b, "path": paths[j]})
-        fault = rng.weighted([(None, 70), ("missing", 12), ("self", 5), ("cycle2", 5), ("cycle3", 4), ("cycle_prefix", 4)])
+        fault = rng.weighted([(None, 70), ("missing", 10), ("self", 4), ("cycle2", 4), ("cycle3", 4), ("cycle_prefix", 4), ("sibling_names", 3), ("dot_self", 2)])
+        # END is only a marker: statements after it (in the includer or in the same file) are still assembled
+        if rng.chance(0.2) and len(lines) > 2:
+            lines.insert(rng.randint(1, len(lines) - 1), " END \n")
         # the same (preferably label-free) file included twice; other files lying around next to an including file
         for c in cuts:
             label_free = all(l[:1] in " \t" for l in lines[c["a"]:c["b"]])
@@ -133,6 +136,15 @@ class C19(object):
             fired = "missing_include"
         elif fault == "self":
             files["main.asm"] += " INCLUDE main.asm\n"
+            fired = "include_cycle"
+        elif fault == "sibling_names":
+            files["lib/sio.asm"] = " NOP \n INCLUDE sdefs.asm\n"       # names no generated layout uses in the working directory
+            files["lib/sdefs.asm"] = " INCLUDE sio.asm\n"
+            files["main.asm"] += " INCLUDE lib/sio.asm\n"
+            fired = "missing_include"
+        elif fault == "dot_self":
+            files["sutil.asm"] = " NOP \n INCLUDE ./sutil.asm\n"
+            files["main.asm"] += " INCLUDE sutil.asm\n"
             fired = "include_cycle"
         elif fault in ("cycle2", "cycle3", "cycle_prefix"):
             if fault == "cycle2":
